@@ -8,8 +8,9 @@ from hypothesis import strategies as st
 from vlib import gen
 
 LABELS = ["a", "b", "c", "d", "e", "f", "a1", "ä"]
-REF = st.integers(0, 40)
-PREF = st.one_of(st.just(-1), st.integers(0, 40))  # parent ref incl. the tree itself
+# node references are taken modulo the number of nodes; one in four reaches far into a big tree (gen.big_specs)
+REF = st.sampled_from([40, 40, 40, 400]).flatmap(lambda hi: st.integers(0, hi))
+PREF = st.one_of(st.just(-1), REF)  # parent ref incl. the tree itself
 LABEL = st.sampled_from(LABELS)
 IDS = st.sampled_from(["X1", "X2", 1000, 1001, 0])
 ADD_IDS = st.sampled_from(["X1", "X2", 1000, 1001, 0])  # 0: a legal falsy explicit id (only for new nodes)
@@ -39,11 +40,33 @@ def new_opts(draw, typed, explicit_ids=True, fresh=False):
     if fresh and draw(st.sampled_from([0, 0, 1])):
         o["fresh"] = True
     if draw(st.sampled_from([0] * 9 + [1])):
-        o["nid"] = draw(st.integers(5000, 5020))
+        # (node_id is documented as str|int and stored as int: "5001" and 5001 are the same id)
+        o["nid"] = draw(st.sampled_from([5000, 5001, 5002, 5003, "5001", "5002"])) if draw(st.booleans()) else draw(st.integers(5000, 5020))
     return o
 
 
-def op_strategies(typed=False, explicit_ids=True, fresh=False, valid_before_only=False, invalid_bias=False):
+def _interesting_refs(spec, with_children=False):
+    """pre-order indexes of the children at notable positions of every long child list"""
+    out = []
+    counter = [0]
+
+    def rec(nodes):
+        L = len(nodes)
+        want = {p for p in (0, 1, 2, L - 1, L - 2, L // 2, L - 16, L - 17, L - 32, L - 33, L - 64, L - 65, L - 128, L - 129, L - 256, L - 257) if 0 <= p < L} if L > 10 else set()
+        for i, n in enumerate(nodes):
+            if i in want and (n[1] or not with_children):
+                out.append(counter[0])
+            counter[0] += 1
+            rec(n[1])
+
+    rec(spec)
+    return sorted(set(out)) or [0]
+
+
+def op_strategies(typed=False, explicit_ids=True, fresh=False, valid_before_only=False, invalid_bias=False, ref=None, ref_inner=None):
+    REF = ref if ref is not None else globals()["REF"]
+    SKIP0 = st.one_of(LABEL, REF) if ref_inner is None else st.one_of(LABEL, REF, ref_inner, ref_inner)
+    PREF = st.one_of(st.just(-1), REF)
     B = before_json(valid_before_only, invalid_bias)
     O = new_opts(typed, explicit_ids, fresh)
     tri = st.sampled_from([None, True, False])
@@ -75,7 +98,8 @@ def op_strategies(typed=False, explicit_ids=True, fresh=False, valid_before_only
         "rename": st.tuples(st.just("rename"), REF, LABEL).map(list),
         "meta": st.tuples(st.just("meta"), REF, st.sampled_from(["set", "set", "clear", "update", "replace"]),
                           st.one_of(st.none(), st.sampled_from(["k1", "k2"])), st.one_of(st.none(), st.integers(1, 3), st.dictionaries(st.sampled_from(["k1", "k2", "k3"]), st.integers(1, 3), max_size=2))).map(_fix_meta),
-        "filter": st.tuples(st.just("filter"), st.lists(LABEL, max_size=5, unique=True)).map(list),
+        # third element: labels answered with SkipBranch(and_self=False) (the node stays, its descendants go)
+        "filter": st.tuples(st.just("filter"), st.lists(LABEL, max_size=5, unique=True), st.lists(SKIP0, max_size=2, unique=True)).map(list),
     }
 
 
@@ -112,13 +136,19 @@ PROFILES = {
 
 @st.composite
 def histories(draw, typed=False, max_ops=40, explicit_ids=True, fresh=False, kinds=None, max_nodes=15, valid_before_only=False,
-              eq_siblings=True, invalid_bias=False, min_nodes=0, min_ops=None):
+              eq_siblings=True, invalid_bias=False, min_nodes=0, min_ops=None, big=None):
     opts = gen.node_opts(explicit_ids=explicit_ids, kinds=typed)
-    spec = draw(gen.forest_specs(max_nodes=max_nodes, max_depth=5, max_width=4, alphabet=LABELS, opts=opts, min_nodes=min_nodes))
+    spec = draw(gen.forest_specs(max_nodes=max_nodes, max_depth=5, max_width=4, alphabet=LABELS, opts=opts, min_nodes=min_nodes, big=big))
     if explicit_ids:
         gen.fix_sibling_ids(spec)
     spec2 = draw(gen.forest_specs(max_nodes=6, max_depth=3, max_width=3, alphabet=LABELS, opts=gen.node_opts(explicit_ids=False, kinds=typed)))
-    strat = op_strategies(typed, explicit_ids, fresh, valid_before_only, invalid_bias)
+    ref = None
+    n_nodes = gen.spec_nodes(spec)
+    if n_nodes > 40:
+        # a big tree: references aim at positions where a chunked or bulk code path would change its behaviour
+        ref = st.one_of(st.sampled_from(_interesting_refs(spec)), st.integers(0, n_nodes - 1), st.integers(0, 40))
+    strat = op_strategies(typed, explicit_ids, fresh, valid_before_only, invalid_bias, ref=ref,
+                          ref_inner=st.sampled_from(_interesting_refs(spec, with_children=True)) if ref is not None else None)
     if kinds is None:
         prof = draw(st.sampled_from(sorted(PROFILES)))
         kinds = PROFILES[prof]
